@@ -45,7 +45,9 @@ def run_jaqal_circuit(circuit, backend=None, force_sim=False, emulator_backend=N
     """
     runner_type, runner_port = _get_runner()
     if runner_type == "ipc" and not force_sim:
-        return jaqalpaq.ipc.ipc.run_jaqal_circuit(circuit, **kwargs)
+        import jaqalpaq.ipc.ipc
+
+        return jaqalpaq.ipc.ipc.run_jaqal_circuit(circuit)
     elif runner_type != "emulator":
         raise JaqalError("Internal error: unknown runner")
 
